@@ -826,3 +826,77 @@ def check_word_list_tokens(ctx, rep, f, rule=RULE + '.tokens'):
             rep.violates(rule, f, c, '`{}` yields one empty token for an empty text, and in a word list the empty token is the empty word: an empty list of words is read as {{epsilon}} '
                          '(a checker then demands / accepts the empty word for the empty language)'.format(u(c)))
     return n
+
+
+def check_declared_lines_unconditional(ctx, rep, rule=RULE + '.a'):
+    """a declaration whose ABSENCE the builder of the kind fills with a default of its own (`X = self.get_symbol_set('K')`
+    and then `if X is None: X = <default>`) must be written by the printer of that kind on every path: a printer that
+    leaves the line out for an empty set makes the reader apply the default, and the empty set does not come back."""
+    n = 0
+    for kind, mod in KINDS.items():
+        pf = ctx.prog.func('{}.print_{}'.format(mod, kind))
+        bcls = [c for c in ctx.prog.classes.values() if c.name == kind.upper() + 'Builder' and not c.module.name.startswith('template:')]
+        if not bcls or 'build' not in bcls[0].methods:
+            continue
+        build = bcls[0].methods['build']
+        defaulted = {}
+        for st in walk_no_nested(build.node):
+            if isinstance(st, ast.Assign) and len(st.targets) == 1 and isinstance(st.targets[0], ast.Name) and isinstance(st.value, ast.Call) \
+                    and isinstance(st.value.func, ast.Attribute) and st.value.func.attr == 'get_symbol_set' and len(st.value.args) == 1 and isinstance(st.value.args[0], ast.Constant):
+                var = st.targets[0].id
+                for t in walk_no_nested(build.node):
+                    if isinstance(t, ast.If) and any(a[0] == 'eq' and a[1] == var and a[2] == 'None' and a[3] is True for a in atoms_of_test(t.test)):
+                        defaulted[st.value.args[0].value] = t
+        if not defaulted:
+            continue
+        fx = ctx.facts(pf)
+        # direct writes and writes through a local helper (def write(keyword, xs): if xs: out.write(...))
+        written = {}
+        for (kw, c) in printed_keywords(ctx, pf):
+            nid = fx.stmt_of_expr(c)
+            written.setdefault(kw, []).append(bool(fx.guard_atoms(nid)) if nid is not None else False)
+        for c in walk_no_nested(pf.node):
+            if isinstance(c, ast.Call) and isinstance(c.func, ast.Name) and c.func.id in pf.nested and c.args and isinstance(c.args[0], ast.Constant) and isinstance(c.args[0].value, str):
+                h = pf.nested[c.func.id]
+                hx = ctx.facts(h)
+                conds = []
+                for w in walk_no_nested(h.node):
+                    if isinstance(w, ast.Call) and isinstance(w.func, ast.Attribute) and w.func.attr == 'write':
+                        hn = hx.stmt_of_expr(w)
+                        conds.append(bool(hx.guard_atoms(hn)) if hn is not None else False)
+                nid = fx.stmt_of_expr(c)
+                outer = bool(fx.guard_atoms(nid)) if nid is not None else False
+                if conds:
+                    written.setdefault(c.args[0].value, []).append(outer or all(conds))
+        for kw, site in sorted(defaulted.items()):
+            n += 1
+            if kw not in written:
+                # the keyword may sit in a table of (keyword, value) rows that is written out row by row
+                occ = [x for x in ast.walk(pf.node) if isinstance(x, ast.Constant) and x.value == kw]
+                conditional = set()
+                for t0 in ast.walk(pf.node):
+                    if isinstance(t0, ast.If):
+                        for b0 in t0.body + t0.orelse:
+                            conditional |= {id(x) for x in ast.walk(b0)}
+                    if isinstance(t0, ast.IfExp):
+                        conditional |= {id(x) for x in ast.walk(t0.body)} | {id(x) for x in ast.walk(t0.orelse)}
+                    if isinstance(t0, (ast.ListComp, ast.GeneratorExp, ast.SetComp)) and any(g0.ifs for g0 in t0.generators):
+                        conditional |= {id(x) for x in ast.walk(t0)}
+                if occ and not any(id(x) in conditional for x in occ):
+                    rep.holds(rule, pf, "line '{}'".format(kw), "the declaration '{}' is part of an unconditional table of lines".format(kw), nontrivial=False)
+                    continue
+                if occ:
+                    rep.undecided(rule, pf, "line '{}'".format(kw), "how the declaration '{}' is written is not recognised".format(kw))
+                    continue
+                rep.violates(rule, pf, 'def ' + pf.name, "print_{0} never writes the declaration '{1}', for which {2}Builder substitutes a default when it is absent: an automaton whose {1} differ from that default does not come back".format(kind, kw, kind.upper()))
+            elif all(written[kw]):
+                rep.violates(rule, pf, "line '{}'".format(kw), "print_{0} writes the declaration '{1}' only under a condition, but {2}Builder fills an ABSENT '{1}' with a default of its own ({3}): for the case in which the line is left out (an empty set) the reader builds a different automaton".format(
+                    kind, kw, kind.upper(), u(site.body[0])[:60]))
+            else:
+                rep.holds(rule, pf, "line '{}'".format(kw), "the declaration '{}', whose absence has a default in the builder, is written on every path".format(kw))
+    return n
+
+
+def atoms_of_test(t):
+    from ..astutil import atoms_of
+    return atoms_of(t, True)
